@@ -10,6 +10,9 @@ use super::c10::{node_digest, node_digest_for, node_model_line};
 use super::sim::*;
 use crate::common::*;
 
+#[path = "c11_backup.rs"]
+mod backup;
+
 pub struct C11Sim;
 
 impl Group for C11Sim {
@@ -69,6 +72,11 @@ impl Group for C11Sim {
     fn gen_case(&self, rng: &mut Rng, tier: Tier) -> Vec<String> {
         let len = rng.range(5, if tier == Tier::Quick { 12 } else { 30 }) as usize;
         let mut ops = gen_ops(rng, len);
+        // `osign g` rewrites the node entry, which the node-request model does not follow; issued invoices (`sinv`) are
+        // the one thing that entry makes durable late: keep the two apart in model-compared cases
+        if ops.iter().any(|o| o.starts_with("sinv")) {
+            for o in ops.iter_mut() { if o.starts_with("osign") { *o = "hb".to_string(); } }
+        }
         for i in 0..ops.len() {
             if rng.chance(1, 6) { ops[i] = "restart".to_string(); }
         }
@@ -205,7 +213,8 @@ impl Group for C11Stub {
     fn model(&self) -> Option<&'static str> { None }
     fn rule(&self) -> &'static str {
         "a node whose only channel is a stub (no ready channel, no tracker listener): blocks through the protocol handler's \
-         AddBlock arm and directly, allowlist, keysends, new/forget channel, heartbeat, restarts; after every request the \
+         AddBlock arm and directly, allowlist, keysends, issued invoices, a moving clock (expiry and pruning at the heartbeat), \
+         new/forget channel, heartbeat, restarts; after every request the \
          durable view of a second node restored from the store (and from the crash point between prepare and commit) is \
          compared with the running node; monitor-only (no model); non-trivial as for the main group"
     }
@@ -215,12 +224,17 @@ impl Group for C11Stub {
         vec![
             c("world stub|HBLK+ g|HBLK+ g|restart|HBLK+ g|newch 2|HBLK+ g|restart|blk- g"),
             c("world stub|blk+ g|al add g|HBLK+ g|ks 1000|restart|blkn 7|hb|restart|newch 3"),
+            // keysends and issued invoices expire: the heartbeat prunes them and must write the pruned node state
+            c("world stub|ks 1000|ks 2000|tick 61|hb|restart|ks 3000|sinv 0 100000|tick 30|hb|tick 31|hb|restart|tick 200000|hb|restart"),
         ]
     }
     fn gen_case(&self, rng: &mut Rng, _tier: Tier) -> Vec<String> {
         let mut ops = vec!["world stub".to_string()];
         for _ in 0..rng.range(4, 12) {
-            ops.push(match rng.below(12) {
+            ops.push(match rng.below(15) {
+                12 => format!("tick {}", *rng.pick(&[30u64, 59, 60, 61, 3600, 90_000, 200_000])),
+                13 => format!("sinv {} {}", rng.below(3), *rng.pick(&[100_000u64, 1_000, 0])),
+                14 => "hb".to_string(),
                 0..=3 => format!("HBLK+ {}", if rng.chance(4, 5) { "g" } else { "b" }),
                 4 => "blk+ g".to_string(),
                 5 => "blk- g".to_string(),
@@ -240,5 +254,5 @@ impl Group for C11Stub {
 }
 
 pub fn groups() -> Vec<Box<dyn Group>> {
-    vec![Box::new(C11Sim), Box::new(C11Stub)]
+    vec![Box::new(C11Sim), Box::new(C11Stub), Box::new(backup::C11Backup)]
 }
